@@ -107,22 +107,22 @@ G_SENTENCE = (" Call sites (Engine G): the libawkward C++ methods that call thes
 
 N_FAMILIES = {
  "C01": "getitem_basic (integers, ranges with any bounds/step, ellipsis, newaxis, fields), getitem_array (one or two adjacent integer arrays of one or two dimensions, boolean arrays, index arrays with missing values), getitem_jagged (jagged integer/boolean indexes with missing entries), getitem_numpy (rectilinear arrays against NumPy's own indexing as oracle), carry_range (carry, x[a:b], x[i]), fields (x[\"f\"] and x[[\"f\", \"g\"]] through lists and options)",
- "C02": "layout_independent (metamorphic: the same operation -- reducers, num, flatten, local_index, pad_none, combinations, sort, argsort, slicing, carry, values_astype, field projection, fill_none -- on a random physical layout and on the compact canonical layout of the same value gives equal values and the same success-or-error outcome), tolist (every physical encoding -- ListArray/ListOffsetArray/RegularArray in 32/U32/64 bit, shifted or shuffled storage with unreachable elements, IndexedArray views, all five option encodings with arbitrary padding bits and negative indexes, strided/offset/reversed/n-dimensional NumpyArray, records, unions -- reads back as the encoded value), carry_range, convert (toListOffsetArray64, toRegularArray, option-encoding conversions, simplify, project, bytemask, deep_copy, contiguous); every other family also draws its inputs from these encodings and compares with a layout-independent reference",
+ "C02": "layout_independent (metamorphic: the same operation -- reducers, num, flatten, local_index, pad_none, combinations, sort, argsort, slicing, carry, values_astype, field projection, fill_none -- on a random physical layout and on the compact canonical layout of the same value gives equal values and the same success-or-error outcome), tolist (every physical encoding -- ListArray/ListOffsetArray/RegularArray in 32/U32/64 bit, shifted or shuffled storage with unreachable elements, IndexedArray views, all five option encodings with arbitrary padding bits and negative indexes, strided/offset/reversed/n-dimensional NumpyArray, records, unions -- reads back as the encoded value), carry_range, convert (toListOffsetArray64, toRegularArray, option-encoding conversions, simplify, project, bytemask, deep_copy, contiguous), union_shared (the operations of the other families on union[x, x] whose two branches are literally the same buffers give what they give on x); every other family also draws its inputs from these encodings and compares with a layout-independent reference",
  "C03": "reduce_ragged (all ten reducers, every axis written positively or negatively, mask_identity, keepdims, missing leaves and missing lists, every encoding) and reduce_rect (rectilinear arrays incl. size-0 dimensions and n-dimensional NumpyArray)",
  "C04": "broadcast (the list-alignment step only: broadcast_tooffsets64 of ListArray / ListOffsetArray / RegularArray onto offsets with the same list lengths keeps the value, a length-1 regular dimension repeats its element to the requested lengths, different lengths raise)",
- "C05": "num, flatten (incl. unions of list types), localindex at every axis",
- "C06": "sort and argsort along the innermost axis (both directions, stable or not, NaN first, missing leaves last, positions realise the order, ties in original order when stable; lists of strings and bytestrings sorted as whole units by bytes)",
+ "C05": "num, flatten (incl. unions of list types), localindex at every axis; one union node (numbers against records, same list depth) at a random level",
+ "C06": "sort and argsort along the innermost axis (both directions, stable or not, NaN first, missing leaves last, positions realise the order, ties in original order when stable; for sort also missing lists at the outermost level, which stay where they are; lists of strings and bytestrings sorted as whole units by bytes)",
  "C07": "combinations (n 1..4, with/without replacement, every axis, tuples and order equal to itertools)",
- "C08": "concat (ak.concatenate axis=0 composed from mergeable/mergemany/merge_as_union/simplify as structure.py does: same types, numerically different leaf types with the promoted dtype checked against numpy.result_type for two arrays, different types giving unions, record arrays with the same fields stored in another order, IndexedArray nodes with repeats), astype (values_astype against numpy.astype leaf by leaf, n-dimensional arrays included), simplify_union (simplify_uniontype keeps every value)",
+ "C08": "concat (ak.concatenate axis=0 composed from mergeable/mergemany/merge_as_union/simplify as structure.py does: same types, numerically different leaf types with the promoted dtype checked against numpy.result_type for two arrays, different types giving unions, record arrays with the same fields stored in another order, IndexedArray nodes with repeats also next to option-type arrays, blocks of one rectilinear shape as n-dimensional NumpyArrays), union_shared, astype (values_astype against numpy.astype leaf by leaf, n-dimensional arrays included), simplify_union (simplify_uniontype keeps every value)",
  "C09": "rpad (pad_none with/without clip at every axis), fillna (fill_none at the top option level), convert (conversions among the option encodings, project, bytemask = is_none)",
  "C11": "valid_accept (layouts obeying every documented rule -- strings, bytestrings and fixed-length strings included -- pass validityerror), valid_reject (one documented rule broken at one node: reported, or refused by the constructor) and, in EVERY family, the layout returned for a valid input passes validityerror",
  "C12": "every family: the call neither crashes nor hangs (each case runs in a forked child with a 20 s alarm), the input layouts are byte-for-byte unchanged afterwards and the result reads the same after its inputs have been dropped; invalid_nocrash (to_list / deep_copy / depth queries on layouts with one broken rule never crash); thorough tier: the same under AddressSanitizer",
- "C14": "builder (random well-nested values through the real ArrayBuilder incl. records with differing fields, tuples, strings, None, mixed numbers: final to_list equals the appended values up to the documented unification, length, validity; snapshots taken in between equal the values appended so far and read the same at the end, for initial buffer sizes 1, 2, 8, 1024) and builder_malformed (unbalanced end, field/index outside record/tuple raise)",
+ "C14": "builder (random well-nested values through the real ArrayBuilder incl. records with differing fields, tuples, strings, None, mixed numbers: final to_list equals the appended values up to the documented unification, length, validity; zero-field tuples; snapshots taken between values and in the middle of an open value equal the values completed so far and read the same at the end, for initial buffer sizes 1, 2, 8, 1024) and builder_malformed (unbalanced end, field/index outside record/tuple raise)",
  "C19": "forth (random small programs -- stack/arithmetic/comparison/bitwise words, if/else, do/loop/+loop with i, begin/until, begin/while/repeat, user words with exit, variables, typed little/big-endian, repeated, varint and zigzag reads to the stack or to an output, seek/skip/len/pos/end, typed output writes, +<-, rewind, halt, pause -- on the real ForthMachine64 in three schedules (run resumed after every pause, single-stepped, mixed) and with output buffers starting at 1, 2 or 1024 items: error status, stack, variables, outputs and input positions equal those of the reference interpreter akvlib/nat/forthref.py written from the documented semantics)",
- "C18": "virtual (the operations of the other families through a real VirtualArray with a counting generator and no cache / an unbounded cache / a cache that evicts after k hits, optionally with a first generation that fails), virtual_enforce (declared length+form: length/depth/form queries never invoke the generator; a too-short or wrong-form generation is refused and leaves neither an inferred form nor a cached array), partitioned (IrregularlyPartitionedArray getitem_at, getitem_range with any start/stop/step, repartition incl. empty partitions, against the concatenated list)",
+ "C18": "virtual (the operations of the other families through a real VirtualArray with a counting generator and no cache / an unbounded cache / a cache that evicts after k hits, optionally with a first generation that fails), virtual_enforce (declared length+form: length/depth/form queries never invoke the generator; a too-short or wrong-form generation is refused and leaves neither an inferred form nor a cached array), field projection of a lazy record array answers depth queries like the eager field, partitioned (IrregularlyPartitionedArray getitem_at, getitem_range with any start/stop and steps up to +-7, repartition incl. empty partitions, against the concatenated list)",
 }
 
-N_SENTENCE = (" BOUNDED, never counted as proved (Engine N): run-time contracts on the REAL layout classes -- libawkward and the kernels are compiled from the working tree, linked with /verif/native/driver.cpp (rapidjson, an empty submodule here, replaced by a stand-in that is only compiled, never used for JSON) and each postcondition, taken from the property text over the array's nested-list value, is checked on %d (quick) / %d (thorough) seeded random cases per family (lists of at most 4 elements, depth at most 3): %s. Inputs that hit a recorded known finding are not generated; each recorded input is replayed and reported as KNOWN-FINDING while it still fails.")
+N_SENTENCE = (" BOUNDED, never counted as proved (Engine N): run-time contracts on the REAL layout classes -- libawkward and the kernels are compiled from the working tree, linked with /verif/native/driver.cpp (rapidjson, an empty submodule here, replaced by a stand-in that is only compiled, never used for JSON) and each postcondition, taken from the property text over the array's nested-list value, is checked on %d (quick) / %d (thorough) seeded random cases per family (lists of at most 4 elements, 3 percent of them 8 to 18 long, depth at most 3): %s. Inputs that hit a recorded known finding are not generated; each recorded input is replayed and reported as KNOWN-FINDING while it still fails.")
 
 
 def main():
